@@ -275,7 +275,108 @@ def rule_reload(r):
             "python kernels build a fresh result per evaluation")
 
 
+CONTAINER_CALLS = {"dict", "list", "set", "OrderedDict", "collections.OrderedDict", "defaultdict", "collections.defaultdict"}
+
+
+def _is_container_expr(node):
+    """The expression evaluates to a freshly made mutable container (top level, or either arm of a conditional)."""
+    if isinstance(node, (ast.Dict, ast.List, ast.Set, ast.DictComp, ast.ListComp)):
+        return True
+    if isinstance(node, ast.Call) and pf.call_name(node) in CONTAINER_CALLS:
+        return True
+    if isinstance(node, ast.IfExp):
+        return _is_container_expr(node.body) or _is_container_expr(node.orelse)
+    if isinstance(node, ast.BoolOp):
+        return any(_is_container_expr(v) for v in node.values)
+    return False
+
+
+def rule_clone(r):
+    """SasviewModel.clone shares no mutable state with the original."""
+    sv = pf.lib("sasview_model")
+    f = "sasmodels/sasview_model.py"
+    cl = sv.func("SasviewModel.clone")
+    rets = [s_ for s_ in pf.walk_stmts(cl) if isinstance(s_, ast.Return)]
+    if not rets:
+        raise AnalysisError("clone: no return")
+    if all(isinstance(x.value, ast.Call) and pf.call_name(x.value) in ("deepcopy", "copy.deepcopy") and
+           pf.unparse(x.value.args[0]) == "self" for x in rets):
+        r.ok(f, "SasviewModel.clone", "return deepcopy(self)", rets[0].lineno, "every nested container is duplicated")
+        return
+    # hand-rolled copy: every attribute that holds nested mutable containers must be deep-copied
+    init = sv.func("SasviewModel.__init__")
+    nested = {}
+    for s_ in pf.walk_stmts(init):
+        if isinstance(s_, ast.Assign) and isinstance(s_.targets[0], ast.Subscript) and isinstance(s_.targets[0].value, ast.Attribute) \
+                and pf.unparse(s_.targets[0].value.value) == "self" and _is_container_expr(s_.value):
+            nested[s_.targets[0].value.attr] = s_
+    if not nested:
+        raise AnalysisError("SasviewModel.__init__: nested containers not identified")
+    ret_name = pf.unparse(rets[-1].value)
+    for attr, where in sorted(nested.items()):
+        deep = [s_ for s_ in pf.walk_stmts(cl) if isinstance(s_, ast.Assign) and pf.unparse(s_.targets[0]) == "%s.%s" % (ret_name, attr)
+                and isinstance(s_.value, ast.Call) and pf.call_name(s_.value) in ("deepcopy", "copy.deepcopy")]
+        r.check(bool(deep), f, "SasviewModel.clone", "%s.%s is a deep copy" % (ret_name, attr), cl.lineno,
+                "self.%s holds containers inside a container (%s); a shallow copy leaves the inner ones shared, so setParam on "
+                "the clone changes what the original evaluates" % (attr, pf.unparse(where)[:60]))
+
+
+EVAL_CLASSES = [("mixture", "MixtureKernel"), ("mixture", "_MixtureParts"), ("product", "ProductKernel"), ("kernel", "Kernel"),
+                ("kerneldll", "DllKernel"), ("kernelpy", "PyKernel")]
+# attributes an evaluation may (re)write: each is overwritten before it is read within one evaluation
+STATE_ALLOWED = {"results": "lazy intermediate results of the last evaluation (not consulted by the next one)",
+                 "result": "result buffer, zeroed by the kernel when pd_start == 0 / rebuilt by _loops",
+                 "part_num": "iterator position, reset in __iter__", "par_index": "iterator position, reset in __iter__",
+                 "mag_index": "iterator position, reset in __iter__", "q_input": "released in release()"}
+
+
+def rule_state(r):
+    """No state survives from one evaluation to the next inside the kernel objects."""
+    n = 0
+    for modname, cname in EVAL_CLASSES:
+        mod = pf.lib(modname)
+        f = "sasmodels/%s.py" % modname
+        if cname not in mod.classes:
+            raise AnalysisError("%s.%s missing" % (modname, cname))
+        methods = {q.split(".", 1)[1]: fn for q, fn in mod.functions.items() if q.startswith(cname + ".") and q.count(".") == 1}
+        init = methods.get("__init__")
+        persistent = {}
+        if init is not None:
+            for s_ in pf.walk_stmts(init):
+                if isinstance(s_, ast.Assign) and isinstance(s_.targets[0], ast.Attribute) and pf.unparse(s_.targets[0].value) == "self" \
+                        and _is_container_expr(s_.value) and not any(
+                            isinstance(c, ast.Call) and (pf.call_name(c) or "").startswith("np.") for c in ast.walk(s_.value)):
+                    persistent[s_.targets[0].attr] = s_
+        for mname, fn in sorted(methods.items()):
+            if mname in ("__init__", "release", "__del__", "__getstate__", "__setstate__"):
+                continue
+            for s_ in pf.walk_stmts(fn):
+                # reads/writes of a persistent container created in __init__
+                for node in pf.own_exprs(s_):
+                    if isinstance(node, ast.Attribute) and pf.unparse(node.value) == "self" and node.attr in persistent:
+                        n += 1
+                        r.violation(f, "%s.%s" % (cname, mname), "self.%s used in %s" % (node.attr, pf.unparse(s_)[:70]), s_.lineno,
+                                    "self.%s is a container created once per kernel object (%s) and consulted during evaluation: "
+                                    "what an evaluation returns can depend on the evaluations before it"
+                                    % (node.attr, pf.unparse(persistent[node.attr])[:50]))
+                tgts = s_.targets if isinstance(s_, ast.Assign) else ([s_.target] if isinstance(s_, ast.AugAssign) else [])
+                flat = []
+                for t in tgts:
+                    flat.extend(t.elts if isinstance(t, (ast.Tuple, ast.List)) else [t])
+                for t in flat:
+                    base = t.value if isinstance(t, ast.Subscript) else t
+                    if isinstance(base, ast.Attribute) and pf.unparse(base.value) == "self":
+                        n += 1
+                        ok = base.attr in STATE_ALLOWED
+                        r.check(ok, f, "%s.%s" % (cname, mname), "writes self.%s" % base.attr, s_.lineno,
+                                STATE_ALLOWED.get(base.attr, "attribute written during evaluation outside the enumerated scratch state"))
+    if n < 5:
+        raise AnalysisError("state rule examined only %d writes" % n)
+
+
 RULES = [
+    ("R-C11-clone", 1, "clone shares no mutable state", rule_clone),
+    ("R-C11-state", 5, "no evaluation-to-evaluation state in kernel objects", rule_state),
     ("R-C11-args", 40, "caller-owned arguments are never mutated (interprocedural effect analysis)", rule_args),
     ("R-C11-escape", 7, "no view of the reused result buffer escapes", rule_escape),
     ("R-C11-scratch", 3, "shared python parameter vector fully overwritten before use", rule_scratch),
